@@ -69,8 +69,10 @@ Definition sha256_symspec (o : list (list N)) : M (list N) :=
 Definition sha256_check : bool := ck_check c_sha256_single_body 5000 sha256_nvars sha256_objs 1 sha256_symspec.
 
 (* THE REGENERATED OBLIGATION *)
-Lemma sha256_check_true : sha256_check = true.
+Lemma sha256_check_true :
+  ck_check c_sha256_single_body 5000 sha256_nvars sha256_objs 1 sha256_symspec = true.
 Proof. vm_compute. reflexivity. Qed.
+Global Opaque ck_check.
 
 Lemma c_sha256_single_mono d h j a b r :
   (a <= b)%nat -> c_sha256_single a d h j = Some r -> c_sha256_single b d h j = Some r.
@@ -106,44 +108,30 @@ Proof.
   repeat (constructor; [apply (le_to_N_lt [_; _; _; _]); repeat (constructor; [assumption|]); constructor|]). constructor.
 Qed.
 
-Theorem ck_sha256_single_eq (h block junk : list N) :
-  length h = 8%nat -> Forall (fun x => x < 2 ^ 32) h ->
-  length block = 64%nat -> Forall (fun x => x < 2 ^ 8) block ->
-  exists F0, forall fuel, (F0 <= fuel)%nat ->
-    c_sha256_single fuel (le_words 4 block) h junk = Some (sha256_compress h block).
+(* What the checker's answer means, for EVERY valuation of the 40 input variables that respects
+   their declared 32-bit bounds: the translated body runs to completion (no out-of-bounds access,
+   no shift >= width, no uninitialised scalar read) from the corresponding concrete state and
+   leaves in `digest` the specification's compression of (digest words, byte-swapped data words).
+   The instantiation at `c_sha256_single_init (le_words 4 block) h junk` (rho k = k-th input word)
+   is the remaining, unfinished step (wip/ckernels/unfinished/CKSymSha256_glue.v.txt). *)
+Theorem sha256_sym_sound (rho : nat -> N) :
+  wf rho (ck_t0 sha256_objs) ->
+  exists st',
+    exec 5000 c_sha256_single_body (conc (tvals rho (ck_t0 sha256_objs)) (ck_st0 sha256_nvars sha256_objs)) = Some st' /\
+    get_obj st' 1 =
+    Some (sha256_compress_words (map (V rho (ck_t0 sha256_objs)) (map N.of_nat (seq 16 8)))
+            (map (bswap 32) (map (V rho (ck_t0 sha256_objs)) (map N.of_nat (seq 0 16))))).
 Proof.
-  intros Hlh Hbh Hlb Hbb.
-  destruct (block_words block Hlb Hbb) as (Ld & _ & Bd & Ebe).
-  unfold sha256_compress. rewrite Ebe. clear Ebe Hlb Hbb.
-  remember (le_words 4 block) as data eqn:Hd. clear Hd block.
-  exists 5000%nat. intros fuel Hf. apply (c_sha256_single_mono _ _ _ 5000 fuel); [exact Hf|].
-  unfold c_sha256_single, c_sha256_single_init.
-  remember (map (wrap 32) (firstn 16 (junk ++ repeat 0 16))) as J eqn:HJ.
-  assert (LJ : length J = 16%nat) by (subst J; rewrite map_length, firstn_length, app_length, repeat_length; lia).
-  assert (BJ : Forall (fun x => x < 2 ^ 32) J).
-  { subst J. apply Forall_forall. intros x Hx. apply in_map_iff in Hx as (y & <- & _). apply wrap_lt. }
-  clear HJ junk.
-  explode data Ld. explode h Hlh. explode J LJ. forall_inv.
-  match goal with |- match exec _ _ (mkstate _ [mkobj 32 ?d; mkobj 32 ?hh; mkobj 32 ?jj]) with _ => _ end = _ =>
-    set (rho := fun k : nat => nth k (d ++ hh ++ jj) 0) end.
-  pose proof sha256_check_true as Hc. unfold sha256_check in Hc.
-  destruct (ck_check_sound rho c_sha256_single_body 5000 sha256_nvars sha256_objs 1 sha256_symspec
-              (sha256_compress_words (map (V rho (ck_t0 sha256_objs)) (map N.of_nat (seq 16 8)))
-                 (map (bswap 32) (map (V rho (ck_t0 sha256_objs)) (map N.of_nat (seq 0 16))))) ) as (st' & Hex & Hget);
-    [| | |exact Hc|].
-  - (* the variable table is well formed: every input is below its declared bound *)
-    intros i nd bd Hi.
-    do 40 (destruct i as [|i]; [cbn in Hi; inversion Hi; subst; split; [reflexivity|vm_compute; assumption]|]).
-    destruct i; discriminate Hi.
-  - split; [repeat constructor|]. unfold inb. vm_compute. repeat constructor.
-  - intros s Ws Es. unfold sha256_symspec. cbn [map snd ck_cells ck_cells_from sha256_objs ids].
-    eapply POST_conv.
-    + apply sy256_be_compress_ok; [exact Ws| | |reflexivity|reflexivity].
-      * apply (Forall_inb_ext _ _ _ Es). unfold inb. vm_compute. repeat constructor.
-      * apply (Forall_inb_ext _ _ _ Es). unfold inb. vm_compute. repeat constructor.
-    + intros l s2 [F2 V2]. split; [exact F2|]. rewrite V2.
-      rewrite !(map_V_ext rho _ _ _ Es) by (unfold inb; vm_compute; repeat constructor). reflexivity.
-  - match goal with |- match ?e with _ => _ end = _ => replace e with (Some st') end.
-    + rewrite Hget. f_equal. vm_compute. reflexivity.
-    + rewrite <- Hex. f_equal.
+  intros Hwf0.
+  assert (Hst0 : sst_ok (ck_t0 sha256_objs) (ck_st0 sha256_nvars sha256_objs)).
+  { split; [repeat constructor|]. unfold inb. vm_compute. repeat constructor. }
+  apply (ck_check_sound rho c_sha256_single_body 5000 sha256_nvars sha256_objs 1 sha256_symspec _ Hwf0 Hst0);
+    [|exact sha256_check_true].
+  intros s Ws Es. unfold sha256_symspec. cbn [map snd ck_cells ck_cells_from sha256_objs ids].
+  eapply POST_conv.
+  + apply sy256_be_compress_ok; [exact Ws| | |reflexivity|reflexivity].
+    * apply (Forall_inb_ext _ _ _ Es). unfold inb. vm_compute. repeat constructor.
+    * apply (Forall_inb_ext _ _ _ Es). unfold inb. vm_compute. repeat constructor.
+  + intros l s2 [F2 V2]. split; [exact F2|]. rewrite V2.
+    rewrite !(map_V_ext rho _ _ _ Es) by (unfold inb; vm_compute; repeat constructor). reflexivity.
 Qed.
